@@ -178,6 +178,47 @@ def harness(ctx, M, R, when, k_fd=0, second_nak=False):
         c07.stream_oracle(ctx, w, rig, cfg, calls)
 
 
+def h_two_steps(ctx, M):
+    """NAK #1 while sending file data, the stream runs on to the EOF, NAK #2 while awaiting the EOF ACK
+    and NAK #3 while awaiting Finished: each time the handler must resume where it was"""
+    w = World(ctx)
+    ids = Ids(2, 2)
+    rig, cfg = c07.setup(ctx, w, ids, M, modes=(ACK,), cktypes=[ChecksumType.CRC_32], fixed_closure=False)
+    S, seg = cfg["S"], cfg["seg"]
+    calls = _drive_to(ctx, rig, cfg, "file_data", 1, M)
+    a = ctx.int("a1", 0, 2**21)
+    b = ctx.int("b1", 0, 2**21)
+    ctx.assume(a < b, b <= rig.h.progress, b - a <= M * seg)
+    ctx.assume(rig.h.progress < S)  # file data is still being sent, so the EOF cannot fall into this call
+    o = rig.sm(w.wire(rigs.nak(rig.h.pdu_conf, 0, rig.h.progress, [(a, b)])))
+    ctx.prop("first_nak_served", o.exc is None and all(pdu_kind(p) == "FD" for p in o.pdus),
+             lambda: {"sig": f"{rigs.exc_name(o.exc)} {o.kinds()}"})
+    for _ in range(M + 4):
+        o = rig.sm()
+        calls.append(o)
+        if o.exc is not None or "EOF" in o.kinds():
+            break
+    c07.stream_oracle(ctx, w, rig, cfg, calls)
+    ctx.prop("awaiting_eof_ack", rig.h.step == SStep.WAITING_FOR_EOF_ACK, lambda: {"sig": str(rig.h.step)})
+    for which, want_step in (("eof_ack", SStep.WAITING_FOR_EOF_ACK), ("finished", SStep.WAITING_FOR_FINISHED)):
+        if which == "finished":
+            o = rig.sm(w.wire(rigs.ack(rig.h.pdu_conf, DirectiveType.EOF_PDU)))
+            ctx.prop("eof_ack_accepted", o.exc is None and rig.h.step == want_step,
+                     lambda: {"sig": f"after the second NAK the EOF ACK leads to {rig.h.step}"})
+        a = ctx.int(f"a_{which}", 0, 2**21)
+        b = ctx.int(f"b_{which}", 0, 2**21)
+        ctx.assume(a < b, b <= S, b - a <= seg)
+        o = rig.sm(w.wire(rigs.nak(rig.h.pdu_conf, 0, S, [(a, b)])))
+        ctx.prop("later_nak_served_with_file_data_only", o.exc is None and o.kinds() == ["FD"],
+                 lambda: {"sig": f"{which}: {rigs.exc_name(o.exc)} {o.kinds()}"})
+        o2 = rig.sm()
+        ctx.prop("resume_emits_nothing_new", o2.exc is None and len(o2.pdus) == 0,
+                 lambda: {"sig": f"{which}: after the retransmission the source emitted {o2.kinds()}"})
+        ctx.prop("resume_same_step", rig.h.step == want_step,
+                 lambda: {"sig": f"{which}: resumed in {rig.h.step.name}"})
+        ctx.covered(f"nak_in_{which}")
+
+
 def plan(tier):
     specs = []
     if tier == "quick":
@@ -196,6 +237,9 @@ def plan(tier):
             specs.append(Spec(f"nak/{when}/R={R}/M={mm}", "vf.harness.c08:harness",
                               {"M": mm, "R": R, "when": when}, twin_share=0.1,
                               obligations=["nak_rejected", "metadata_rerequested", "data_retransmitted"]))
+    # a NAK while file data is being sent and a second one after the EOF (two different steps)
+    specs.append(Spec("two-naks/file_data-then-eof_ack/R=1/M=3", "vf.harness.c08:h_two_steps", {"M": 3},
+                      twin_share=0.1))
     if tier == "thorough":
         for when in WHEN:
             specs.append(Spec(f"two-naks/{when}/R=1/M=3", "vf.harness.c08:harness",
